@@ -61,11 +61,17 @@ type verifC15RateLimit struct{ error }
 
 func (verifC15RateLimit) EarliestRetry() time.Time { return time.Now().Add(time.Hour) }
 
+type verifC15SoonRetry struct{ error }
+
+func (verifC15SoonRetry) EarliestRetry() time.Time { return time.Now().Add(3 * time.Millisecond) }
+
 type verifC15IS struct {
 	mtx    sync.Mutex
 	answer byte
 	nextID int
 	insts  []cloud.Instance
+	lists  string // op rs: answers of the successive Instances() calls (o/e/r), then ok for ever
+	nlists int
 }
 
 func (is *verifC15IS) Create(it arvados.InstanceType, img cloud.ImageID, tags cloud.InstanceTags, cmd cloud.InitCommand, pk ssh.PublicKey) (cloud.Instance, error) {
@@ -91,6 +97,16 @@ func (is *verifC15IS) Create(it arvados.InstanceType, img cloud.ImageID, tags cl
 func (is *verifC15IS) Instances(cloud.InstanceTags) ([]cloud.Instance, error) {
 	is.mtx.Lock()
 	defer is.mtx.Unlock()
+	k := is.nlists
+	is.nlists++
+	if k < len(is.lists) {
+		switch is.lists[k] {
+		case 'e':
+			return nil, errors.New("list failed")
+		case 'r':
+			return nil, verifC15SoonRetry{errors.New("slow down")}
+		}
+	}
 	return append([]cloud.Instance(nil), is.insts...), nil
 }
 func (is *verifC15IS) Stop() {}
@@ -690,6 +706,36 @@ func verifC15Case(line string) (out string) {
 			wp.mtx.Unlock()
 		}
 		return strings.Join(toks, ",")
+	case f[0] == "rs" && len(f) == 2 && len(f[1]) > 0:
+		for _, ch := range []byte(f[1]) {
+			if ch != 'o' && ch != 'e' && ch != 'r' {
+				return "bad-op"
+			}
+		}
+		wp := verifC15NewPool(ex)
+		wp.syncInterval = time.Millisecond
+		is := &verifC15IS{lists: f[1]}
+		wp.instanceSet = &throttledInstanceSet{InstanceSet: is}
+		go wp.runSync()
+		// the loop must get through the scripted answers and list once more; it does so within
+		// milliseconds, and a loop that has stopped stays stopped
+		want := len(f[1]) + 1
+		deadline := time.Now().Add(5 * time.Second)
+		n := 0
+		for time.Now().Before(deadline) {
+			is.mtx.Lock()
+			n = is.nlists
+			is.mtx.Unlock()
+			if n >= want {
+				break
+			}
+			time.Sleep(200 * time.Microsecond)
+		}
+		close(wp.stop)
+		if n > want {
+			n = want
+		}
+		return fmt.Sprintf("lists=%d", n)
 	case f[0] == "o1" && len(f) == 2:
 		ex.gated, ex.arrived = true, map[int][]chan struct{}{}
 		ex.bootOk, ex.listOk = true, true
